@@ -21,8 +21,10 @@ theorem esCompute_ok (cfg : Cfg) (st : Study) (id : Nat) (es : EsOutcome) {ts : 
     rw [h1] at hu
     simp only
     split
-    · exact hu
     · split <;> simpa using hu
+    · split
+      · split <;> simpa using hu
+      · simpa using hu
 
 theorem earlyStopBody_ok (cfg : Cfg) (st : Study) (id : Nat) (es : EsOutcome) (hn : Nodup' st.trials) :
     TrialsOK st.trials (earlyStopBody cfg st id es).2.trials := by
